@@ -3,8 +3,13 @@ from pipes import array
 
 
 def run(tier, rep):
-    array.pipeline(tier, rep)
+    import vlib
+    vlib.run_pipelines(rep, [("array", lambda t, r: array.pipeline(t, r)), ("dynarray", lambda t, r: array.dyn_pipeline(t, r))], tier)
     rep.assumptions += ["N in 0..4, element values small integers; int and the lifetime-tracked element type stand for every T",
                         "front() / back() / operator[] of array<T, 0> and out-of-range indices are outside the domain (undefined)",
                         "etl::array has no at() (no exceptions) and no operator<=>: not covered",
-                        "the TLA+ reading of [array] is calibrated against libstdc++ std::array on the same scripts"]
+                        "the TLA+ reading of [array] is calibrated against libstdc++ std::array on the same scripts",
+                        "etl::dynamic_array is undocumented: it is judged as an owning fixed-length heap array (contents of the target of "
+                        "each call + an implementation-neutral resource law: live elements / outstanding storage are exactly those of the live "
+                        "objects), calibrated against std::vector with the same instrumented allocator; a moved-from object only has to be valid",
+                        "etl::c_array is an alias for T[N] (the storage of array): nothing of its own to cover; uninitialized_array is not covered"]
